@@ -324,7 +324,9 @@ AtomicMove<SlotType, BUFFER_SIZE> {
                         if !report_empty_fn() {
                             // our claim was beyond `tail`, but elements published meanwhile may be sitting behind claims that other
                             // consumers are about to give back: "empty" may only be reported if nothing published awaits release
+                            vp!("am.c.chkhead");
                             let head = self.head.load(Relaxed);
+                            vp!("am.c.chktail", head);
                             let tail = self.tail.load(Relaxed);
                             if head == tail {
                                 return None;
